@@ -587,6 +587,30 @@ def run_settings(acc):
                 o = render(lambda: str(q))
                 if o[0] != "ok":
                     acc.violation(["settings", "D", "formatting-raises", "str(q)"], {"default_format": dfmt, "separate_format_defaults": sep}, "a string", o[1])
+    # which part of default_format applies to a spec that names only a unit flavour is a registry setting
+    # (separate_format_defaults), not a property of the flavour: the magnitude is printed alike under D, C, P and H
+    import warnings as _w
+    for sep in (None, True, False):
+        for dfmt in (".1f", ".2f~P", "~C", ".4f", ""):
+            ureg = regs.default("float", fresh=True)
+            if sep is not None:
+                ureg.separate_format_defaults = sep
+            ureg.formatter.default_format = dfmt
+            for q, kind in ((ureg.Quantity(1.23456, "meter/second"), "quantity"), (ureg.Measurement(1.23456, 0.01234, "meter/second"), "measurement")):
+                toks = {}
+                for flav in ("D", "C", "P", "H", "~D", "~C", "~P", "~H"):
+                    acc.ev()
+                    acc.nt(("flavour-defaults", sep, dfmt, kind, flav))
+                    with _w.catch_warnings():
+                        _w.simplefilter("ignore")
+                        o = render(lambda: format(q, flav))
+                    if o[0] != "ok":
+                        acc.violation(["settings", fam(flav), "formatting-raises", "general"], {"default_format": dfmt, "separate_format_defaults": sep, "spec": flav, "object": kind}, "a string", o[1])
+                        continue
+                    txt = o[1].replace("&plusmn;", "+/-").replace("±", "+/-")
+                    toks[flav] = "".join(ch for ch in txt.split("meter")[0].split(" m")[0] if ch in "0123456789.")
+                if len(set(toks.values())) > 1:
+                    acc.violation(["settings", "H" if len({v for k, v in toks.items() if "H" not in k}) == 1 else "D", "magnitude-default-depends-on-the-unit-flavour", kind], {"default_format": dfmt, "separate_format_defaults": sep, "object": kind}, "the same digits under every flavour", toks)
     # an empty spec means "the default format" — the whole of it, the '#' compaction modifier and the magnitude part included
     for nt in ("float", "Decimal", "Fraction"):
         ureg = regs.default(nt, fresh=True)
